@@ -119,6 +119,9 @@ struct Scenario {
 	compact_pre: bool,
 	kind: &'static str,
 	input: Option<usize>,
+	/// a further header delivered after the (re-)delivered input: its outcome must equal the
+	/// uninterrupted node's (exposes silent damage to the header MMR)
+	followup: Option<usize>,
 }
 
 fn main() {
@@ -193,6 +196,10 @@ fn main() {
 	let next_specs = spend_for_fork(&kit, &spendable, kit.blks[tip].height + 1);
 	let next_blk = kit.new_block(tip, 20, &next_specs).ok();
 
+	// a sibling of the tip with more work (equal height), and a child of it
+	let eq_specs = spend_for_fork(&kit, &spendable, kit.blks[trunk[n - 1]].height + 1);
+	let eq_blk = kit.new_block(trunk[n - 1], 15, &eq_specs).ok();
+	let eq_child = eq_blk.and_then(|e| kit.new_block(e, 2, &[]).ok());
 	std::fs::create_dir_all(format!("{}/blocks", work)).unwrap();
 	let gen_path = format!("{}/blocks/genesis.bin", work);
 	write_block(&gen_path, &kit.genesis);
@@ -201,19 +208,23 @@ fn main() {
 	}
 
 	let mut scenarios = vec![
-		Scenario { name: "plain-extension", pre: trunk[1..n].to_vec(), compact_pre: false, kind: "block", input: Some(trunk[n]) },
+		Scenario { name: "plain-extension", pre: trunk[1..n].to_vec(), compact_pre: false, kind: "block", input: Some(trunk[n]), followup: None },
 	];
 	if let Some(f) = fork_blk {
-		scenarios.push(Scenario { name: "fork-block", pre: trunk[1..=n].to_vec(), compact_pre: false, kind: "block", input: Some(f) });
+		scenarios.push(Scenario { name: "fork-block", pre: trunk[1..=n].to_vec(), compact_pre: false, kind: "block", input: Some(f), followup: None });
 	}
 	if let Some(r) = reorg_blk {
-		scenarios.push(Scenario { name: "reorg-with-spends", pre: trunk[1..=n].to_vec(), compact_pre: false, kind: "block", input: Some(r) });
-		scenarios.push(Scenario { name: "header-only-reorg", pre: trunk[1..=n].to_vec(), compact_pre: false, kind: "header", input: Some(r) });
+		scenarios.push(Scenario { name: "reorg-with-spends", pre: trunk[1..=n].to_vec(), compact_pre: false, kind: "block", input: Some(r), followup: None });
+		scenarios.push(Scenario { name: "header-only-reorg", pre: trunk[1..=n].to_vec(), compact_pre: false, kind: "header", input: Some(r), followup: None });
+	}
+	if let (Some(e), Some(ec)) = (eq_blk, eq_child) {
+		scenarios.push(Scenario { name: "header-reorg-equal-height", pre: trunk[1..=n].to_vec(), compact_pre: false, kind: "header", input: Some(e), followup: Some(ec) });
+		scenarios.push(Scenario { name: "block-reorg-equal-height", pre: trunk[1..=n].to_vec(), compact_pre: false, kind: "block", input: Some(e), followup: Some(ec) });
 	}
 	if long {
-		scenarios.push(Scenario { name: "compaction", pre: trunk[1..=n].to_vec(), compact_pre: false, kind: "compact", input: None });
+		scenarios.push(Scenario { name: "compaction", pre: trunk[1..=n].to_vec(), compact_pre: false, kind: "compact", input: None, followup: None });
 		if let Some(nb) = next_blk {
-			scenarios.push(Scenario { name: "compaction-then-block", pre: trunk[1..=n].to_vec(), compact_pre: true, kind: "block", input: Some(nb) });
+			scenarios.push(Scenario { name: "compaction-then-block", pre: trunk[1..=n].to_vec(), compact_pre: true, kind: "block", input: Some(nb), followup: None });
 		}
 	}
 
@@ -240,6 +251,7 @@ fn main() {
 		// ---- reference: uninterrupted, with the step log ----
 		let refdir = format!("{}/{}-ref", work, sc.name);
 		copy_dir(Path::new(&base), Path::new(&refdir));
+		let mut ref_followup: Option<String> = None;
 		let (old, new_, labels, res) = {
 			let c = init_chain(&refdir, kit.genesis.clone()).unwrap();
 			let old = snap(&c, &kit);
@@ -258,6 +270,8 @@ fn main() {
 				}
 			}
 			let new_ = snap(&c, &kit);
+			let fu = sc.followup.map(|f| do_input(&c, "header", Some(&kit.blks[f].block)));
+			ref_followup = fu;
 			(old, new_, labels, res)
 		};
 		out.line(
@@ -318,7 +332,11 @@ fn main() {
 						Err(_) => "panic".into(),
 					};
 					let after = snap(&c, &kit);
-					let same = after.head == new_.head && after.roots == new_.roots && after.utxo == new_.utxo;
+					let fu = sc.followup.map(|f| {
+						catch(std::panic::AssertUnwindSafe(|| do_input(&c, "header", Some(&kit.blks[f].block)))).unwrap_or("panic".into())
+					});
+					let fu_same = fu == ref_followup;
+					let same = after.head == new_.head && after.roots == new_.roots && after.utxo == new_.utxo && fu_same;
 					let u: Vec<String> = s.utxo.iter().map(|i| format!("o{}", i)).collect();
 					format!(
 						"open=ok head={} head_allowed={} validate={} utxo=[{}] redeliver={} final={}",
@@ -336,7 +354,7 @@ fn main() {
 								new_.head,
 								if after.roots == new_.roots { "same".to_string() } else { format!("{}!={}", after.roots, new_.roots) },
 								if after.utxo == new_.utxo { "same".to_string() } else { format!("{}vs{}", after.utxo.len(), new_.utxo.len()) }
-							)
+							) + &format!(" followup={:?} want={:?}", fu, ref_followup)
 						}
 					)
 				}
